@@ -187,6 +187,30 @@ class RecordingConsumer:
         self.writes.append(bytes(data))
 
 
+class TransportLikeConsumer(RecordingConsumer):
+    """behaves like a Twisted transport: when its buffer is full it pauses its producer from inside write(), and when the
+    buffer has drained it resumes the producer - if one is still registered"""
+
+    def __init__(self, rng):
+        RecordingConsumer.__init__(self)
+        self.rng = rng
+        self.paused = False
+        self.pauses = 0
+
+    def write(self, data):
+        RecordingConsumer.write(self, data)
+        if self.producer is not None and not self.paused and self.rng.random() < 0.5:
+            self.paused = True
+            self.pauses += 1
+            self.producer.pauseProducing()
+
+    def drained(self):
+        if self.paused:
+            self.paused = False
+            if self.producer is not None:
+                self.producer.resumeProducing()
+
+
 class QueueLikeConsumer(RecordingConsumer):
     """a consumer that is also a container and is empty (false) when it is attached"""
 
